@@ -7,6 +7,7 @@ import (
 	"go/types"
 	"strings"
 	"unicode/utf8"
+	"unsafe"
 
 	"golang.org/x/tools/go/ssa"
 )
@@ -538,11 +539,16 @@ func (fr *frame) callBuiltin(callpos token.Pos, fn *ssa.Builtin, args []value) v
 			return append(a0, strToBytes(s)...)
 		}
 		src := args[1].([]value)
+		marked := fr.m.capUnknown[unsafe.SliceData(a0)]
 		for _, e := range src {
 			a0 = append(a0, copyVal(e))
 		}
 		if a0 == nil && src != nil {
 			a0 = []value{}
+		}
+		if marked {
+			// grown from a slice whose real capacity is not modelled
+			fr.m.capUnknown[unsafe.SliceData(a0)] = true
 		}
 		return a0
 
@@ -614,6 +620,9 @@ func (fr *frame) callBuiltin(callpos token.Pos, fn *ssa.Builtin, args []value) v
 		case *value:
 			return BV(uint64(len((*x).(array))), 64)
 		case []value:
+			if fr.m.capUnknown[unsafe.SliceData(x)] {
+				panic(pathAbort{"cap() of a slice made with a symbolic capacity at " + fr.pos()})
+			}
 			return BV(uint64(cap(x)), 64)
 		case *chanObj:
 			if x == nil {
